@@ -22,12 +22,16 @@ type verifNC struct {
 	lg       *logger.ReceptorLogger
 	tlsNames map[string]bool
 	dials    *int
+	real     *netceptor.Netceptor // when set, TLS profile lookups go to a real node's profile table
 }
 
 func (n *verifNC) NodeID() string                                           { return n.id }
 func (n *verifNC) AddWorkCommand(typeName string, verifySignature bool) error { return nil }
 func (n *verifNC) GetLogger() *logger.ReceptorLogger                        { return n.lg }
 func (n *verifNC) GetClientTLSConfig(name string, expectedHostName string, t netceptor.ExpectedHostnameType) (*tls.Config, error) {
+	if n.real != nil {
+		return n.real.GetClientTLSConfig(name, expectedHostName, t)
+	}
 	if name == "" {
 		return nil, nil
 	}
